@@ -373,6 +373,19 @@ def r22_closure(ctx):
                   '%s is applied to values (e.g. %s) but Rational does not wrap it: the result degrades to Fraction and prints '
                   'as a/b' % (d, ctx.repo.loc(site) if site is not None else 'record.py'))
     ctx.floor(R, 'value operator sites in rules', nops, 60)
+    # Rational.__new__ always builds the value through Fraction.__new__ (normalised sign and lowest terms)
+    rn = rat.methods.get('__new__')
+    if rn is not None:
+        rets = [r for r in rn.own_nodes() if isinstance(r, ast.Return)]
+        builds = [n for n in rn.own_nodes() if isinstance(n, ast.Call) and unparse(n.func) in ('Fraction.__new__', 'super().__new__', 'super(Rational, cls).__new__')]
+        others = [n for n in rn.own_nodes() if isinstance(n, ast.Call) and unparse(n.func).endswith('__new__') and n not in builds]
+        stores = [n for n in rn.own_nodes() if isinstance(n, ast.Attribute) and isinstance(n.ctx, ast.Store)]
+        okn = len(builds) == 1 and not others and not stores and len(rets) == 1 and isinstance(rets[0].value, ast.Name) \
+            and len(builds[0].args) == 3 and unparse(builds[0].args[1]) == rn.params[1]
+        ctx.check(okn, R, rn.node, rn, 'every Rational is constructed by Fraction.__new__ (sign on the numerator, lowest terms)',
+                  'self = Fraction.__new__(cls, numerator, denominator); return self',
+                  'Rational.__new__ builds values without Fraction.__new__ on some path (or stores numerator/denominator itself): '
+                  'un-normalised values break ==, <, abs and min')
     # Rational.mul/div/muldiv
     want = {'mul': 'Rational.__mul__(arg1, arg2)', 'div': 'Rational.__truediv__(arg1, arg2)',
             'muldiv': 'Rational.__truediv__(Rational.__mul__(arg1, arg2), arg3)'}
